@@ -23,7 +23,7 @@ ASSUMPTIONS = [
     "a line's claimants are determined by offering it to each kind's public from_chart_line",
     "pairwise disjointness is decided on generated strings only",
 ]
-GARBAGE = ["garbage", "", " ", "  ", "\t", "= =", "0 = ", "  0 = Q 1 2", "[Foo]", "[ExpertSingle]", "  [Song]", " {", "} ", "//comment", "  0 = N 8 0",
+GARBAGE = ["garbage", "", " ", "  ", "\t", "= =", "0 = ", "  0 = Q 1 2", "[Foo]", "[ExpertSingle]", "  [Song]", "//comment", "  0 = N 8 0",
            "  0 = N 9 1", "  0 = S 64 10", "  0 = S 0 10", "  0 = S 1 10", "  0 = S 22 3", "  0 = N 0", "  0 = N 0 0 0", "  0 = E two words",
            "  0 = B 120000", "  0 = TS 4", "  0 = TS 4 2", "  0 = A 1000", "  0 = N 0 0", "  0 = S 2 10", "  0 = E solo", "  0 = E \"section a b\"",
            "  0 = E \"lyric a b\"", "  0 = E \"two words\"", "  0 = E \"a\"b\"", "  0 = B", "  0 = B x", "  0 = B -1", "  0 = B 1.5", "  0 = TS",
@@ -59,7 +59,8 @@ ORACLE = {"sync": recog.sync_line, "events": recog.events_line, "instrument": re
 
 
 def pool_for(section_kind):
-    return [x for x in GARBAGE if ORACLE[section_kind](x) == recog.REJECT and x not in ("{", "}")]
+    # braces — also whitespace-padded ones, whose framing role the statements leave open — are never inserted as "unparsable lines"
+    return [x for x in GARBAGE if ORACLE[section_kind](x) == recog.REJECT and x.strip() not in ("{", "}")]
 
 
 POOLS = None
